@@ -55,3 +55,50 @@ func VerifEventGatewayRace(ctx context.Context, node IFlowNode, rounds int) (bad
 	}
 	return bad, nil
 }
+
+// VerifEventGatewayLookups has a token reach the event-based gateway `node` and plays the alternatives'
+// tokens by hand, in a chosen order: alternative j > 0 with early[j] takes its termination channel
+// (flow.termination, as on entering its select) before alternative 0 runs the transformer and wins;
+// the others take theirs only afterwards — a token the scheduler ran late. It reports, per
+// alternative, whether a withdrawal notice was waiting on the channel it took.
+func VerifEventGatewayLookups(ctx context.Context, node IFlowNode, early []bool) (withdrawn []bool, err error) {
+	if _, ok := node.(*eventBasedGateway); !ok {
+		return nil, fmt.Errorf("not an event-based gateway: %T", node)
+	}
+	var action flowAction
+	select {
+	case a := <-node.NextAction(ctx, nil):
+		fa, ok := a.(flowAction)
+		if !ok {
+			return nil, fmt.Errorf("unexpected action %T", a)
+		}
+		action = fa
+	case <-time.After(5 * time.Second):
+		return nil, fmt.Errorf("gateway did not answer")
+	}
+	n := len(action.sequenceFlows)
+	chans := make([]chan bool, n)
+	for j := 1; j < n; j++ {
+		if j < len(early) && early[j] {
+			id, _ := action.sequenceFlows[j].Id()
+			chans[j] = action.terminate(id)
+		}
+	}
+	id0, _ := action.sequenceFlows[0].Id()
+	if _, ok := action.actionTransformer(id0, flowAction{}).(flowAction); !ok {
+		return nil, fmt.Errorf("the first alternative to run the transformer did not win")
+	}
+	withdrawn = make([]bool, n)
+	for j := 1; j < n; j++ {
+		if chans[j] == nil {
+			id, _ := action.sequenceFlows[j].Id()
+			chans[j] = action.terminate(id)
+		}
+		select {
+		case t := <-chans[j]:
+			withdrawn[j] = t
+		default:
+		}
+	}
+	return withdrawn, nil
+}
